@@ -112,6 +112,13 @@ def correspondence(ctx):
     if rc != 0:
         raise V.BuildError('c07 same-key history failed: ' + o[-2000:])
     V.evaluate_case_file(ctx, kout, ['model.CertConstraint'], corr=corr, max_samples=0)
+    # (h) large certificates (size is no criterion) and (i) pattern characters inside constraint values are literal
+    for sub in ('large', 'pattern'):
+        xout = os.path.join(ctx.dir, sub + '.jsonl')
+        rc, o = ctx.run([binp, sub, xout], 300)
+        if rc != 0:
+            raise V.BuildError('c07 %s class failed: %s' % (sub, o[-2000:]))
+        V.evaluate_case_file(ctx, xout, ['model.CertConstraint'], corr=corr, max_samples=0)
     # coverage-guided differential fuzzing against the Go transcription of C07_attr_spec / C07_constraint_spec: the fuzzer
     # sees the library's coverage, so a count comparison, a cache or a redaction is a branch it tries to reach
     # (failing-input search only, never the proof)
@@ -146,6 +153,14 @@ def correspondence(ctx):
                  "host part / local part / both, URI host / path, organisation (ASCII and e-acute), common name: an exact constraint value "
                  "against a certificate value differing only in the case of one or all letters (both directions, rejected), the exact twins "
                  "(accepted), two spellings listed with one / the other / both carried, one listed with both carried; "
+                 "class large-certificate: leaves with 1 / 20 / 150 / 400 DNS names (PEM 0.5 to 16 KiB) and a 400-entry organisation list "
+                 "(PEM 38 KiB) under an all-wildcard constraint, through LoadLayoutCertificates + VerifyLinkSignatureThesholds with a link "
+                 "signed by the leaf (certificate in the signature), a full InTotoVerify with the link on disk and Step.CheckCertConstraints: "
+                 "accepted; the same shapes under a foreign root: rejected; "
+                 "class attr/pattern-characters-are-literal: dns_names / uris constraint values containing '*', '?', '[a-z]' inside longer "
+                 "strings are plain strings (literal carried: accepted; values a shell pattern would match: rejected; pattern and literal "
+                 "listed together with two matching values carried, both orders; lone '*' stays the wildcard), every case evaluated 40 times "
+                 "through Check and CheckCertConstraints, a varying verdict is an observable of its own; "
                  "history class same-key-other-certificate (one process, one key pair, several certificates: good, issued by a foreign root, "
                  "expired, other names, self-signed, re-issued): good first then each bad one then good again, and each bad one first then the "
                  "good one, through Step.CheckCertConstraints; end to end through InTotoVerify: one verification with two steps whose links "
@@ -206,6 +221,20 @@ def replay(ctx, case):
             print('  %-45s %-24s at T%+s  impl=%s  demanded=%s%s' % (k['klass'], k['input'].get('entry', ''), k['input'].get('at', ''), k['impl'], k.get('oracle'),
                                                                   '' if k['impl'] == k.get('oracle') else '   <-- differs'))
         return
+    for prefix, sub in (('large-certificate/', 'large'), ('attr/pattern-characters-are-literal/', 'pattern')):
+        c = case.get('case', case) or {}
+        if (c.get('klass') or '').startswith(prefix):
+            print('recorded: %s\n  impl=%s  demanded=%s' % (json.dumps(c.get('input')), c.get('impl'), c.get('oracle')))
+            print('re-running the class (fresh certificates):')
+            xout = os.path.join(ctx.dir, 'replay_%s.jsonl' % sub)
+            rc, o = ctx.run([binp, sub, xout], 300)
+            for l in open(xout):
+                k = json.loads(l)
+                if k['klass'] != c.get('klass') and k['impl'] == k.get('oracle'):
+                    continue
+                print('  %-50s %s  impl=%s demanded=%s%s' % (k['klass'], json.dumps(k['input'])[:260], k['impl'], k.get('oracle'),
+                                                            '' if k['impl'] == k.get('oracle') else '   <-- differs'))
+            return
     if ((case.get('case', case) or {}).get('klass') or '').startswith('same-key-other-certificate/'):
         c = case.get('case', case)
         print('recorded: %s\n  impl=%s  demanded=%s' % (json.dumps(c.get('input')), c.get('impl'), c.get('oracle')))
